@@ -1,4 +1,5 @@
 mod drive;
+mod envmodel;
 mod rng;
 mod session;
 mod workload;
@@ -73,7 +74,7 @@ fn cmd_drive(args: &[String]) -> i32 {
         let pre = drive::run_batch(ctx.clone(), Arc::new(Corpus { collisions: corpus.collisions.clone(), base: corpus.base.clone(), faults: corpus.faults.clone(),
                                                                derives: corpus.derives.clone(), env_names: vec![] }),
                                    Arc::new(RefCache::new()), seed ^ 0x5eed_d15c, 0, 24, jobs, 0);
-        corpus.env_names = pre.stats.seam_names.iter().cloned().collect();
+        corpus.env_names = pre.stats.seam_names.iter().map(|n| (n.clone(), envmodel::candidates(n, &repo))).collect();
     }
     let corpus = Arc::new(corpus);
     let refs = Arc::new(RefCache::new());
@@ -112,7 +113,7 @@ fn cmd_drive(args: &[String]) -> i32 {
         "distinct_entropy_seeds": st.entropy_seeds.len(), "distinct_layouts": st.layouts.len(),
         "distinct_keys": st.keys_seen.len(), "distinct_contexts": st.contexts.len(), "distinct_nontrivial_contexts": nontrivial,
         "environment_seams_consulted_by_the_code": {"getrandom_calls": st.seam_getrandom, "clock_calls": st.seam_clock, "getpid_calls": st.seam_getpid,
-            "getenv_calls": st.seam_getenv, "env_names": st.seam_names.iter().collect::<Vec<_>>(), "env_names_given_seeded_values": corpus.env_names},
+            "getenv_calls": st.seam_getenv, "env_names": st.seam_names.iter().collect::<Vec<_>>(), "env_names_given_seeded_values": corpus.env_names.iter().map(|(n, c)| json!({"name": n, "candidate_values": c})).collect::<Vec<_>>()},
         "selfchecked_processes": st.selfchecked, "nondeterministic_sessions": st.nondeterministic,
         "errors": st.errors.iter().take(5).collect::<Vec<_>>(), "error_count": st.errors.len(),
         "divergent_sessions": st.divergences.len(),
